@@ -46,6 +46,7 @@ type Case struct {
 	Piece   int      `json:"piece,omitempty"`   // rr: bytes per turn
 	Between string   `json:"between,omitempty"` // what else uses the pool between two opens: "" | encrypt-start | encrypt-full | pipeline | poolcycle
 	Yield   bool     `json:"yield_between_opens,omitempty"`
+	Unwrap  string   `json:"unwrap"` // plain | yield (already expressed in every stream's pipe.slow_unwrap_us; echoed for the parent)
 }
 
 type Result struct {
